@@ -320,5 +320,13 @@ def rule_u8(repo):
     return res
 
 
+def rule_u9(repo):
+    """Printing, parsing and type inference read the declarations of the current context, the theory and the printer settings
+    from process-wide variables that `with fresh_context(..)`, `fresh_theory()`, `global_setting(..)` set for the extent of a
+    block: sa/persist.scoped_state_rule."""
+    from ..persist import scoped_state_rule
+    return scoped_state_rule(repo, 'C08.U9')
+
+
 def rules(repo):
-    return [rule_u1(repo), rule_u2(repo), rule_u3(repo), rule_u4(repo), rule_u5(repo), rule_u6(repo), rule_u7(repo), rule_u8(repo)]
+    return [rule_u1(repo), rule_u2(repo), rule_u3(repo), rule_u4(repo), rule_u5(repo), rule_u6(repo), rule_u7(repo), rule_u8(repo), rule_u9(repo)]
